@@ -357,6 +357,31 @@ def boundary_and_sampling(res, rng):
         if not np.allclose(smp, want, rtol=1e-12, atol=1e-12):
             fail(res, 'getSample is not the Nataf image of the standard normal vector it drew', {'marginals': 'norm, expon, norm(10,2)', 'corr': R, 'seed': sd},
                  {'sample': smp.tolist(), 'getX(u)': want.tolist()})
+    # sampling with other transformations constructed in between, under an installed global seed: the samples are those of the undisturbed
+    # stream (constructing an object draws nothing and re-seeds nothing)
+    from ffpack.config import globalConfig
+    old_seed = getattr(globalConfig, 'seed', None)
+    try:
+        seqs = []
+        for interleave in (False, True):
+            globalConfig.setSeed(5)
+            nat_s = rpm.NatafTransformation(dists, R)
+            out = []
+            for _k in range(4):
+                out.append(np.asarray(nat_s.getSample(), dtype=float).tolist())
+                if interleave:
+                    rpm.NatafTransformation([stats.norm(), stats.lognorm(0.4)], [[1.0, 0.3], [0.3, 1.0]])
+            seqs.append(out)
+        res.evaluations += 1
+        res.stat('sampling_with_constructions_in_between')
+        if seqs[0] != seqs[1] or len({tuple(x) for x in seqs[1]}) < 4:
+            fail(res, 'samples drawn with other transformations constructed in between differ from the undisturbed sequence (or repeat)',
+                 {'marginals': 'norm, expon, norm(10,2)', 'corr': R, 'global_seed': 5}, {'undisturbed': seqs[0][:2], 'interleaved': seqs[1][:2]})
+    finally:
+        try:
+            globalConfig.setSeed(old_seed)
+        except Exception:  # noqa
+            pass
 
 
 def high_correlation(res):
